@@ -332,3 +332,107 @@ def _rng(m):
 
 def _fmtv(v, base):
     return "0%o" % v if base == 8 else "%d" % v
+
+
+# ---------------------------------------------------------------------------
+# scalar RRULE parts (COUNT, INTERVAL): what the reader makes of a given number
+
+NUMPARSERS = ("atol", "atoi", "strtol", "strtoul", "strtoll")
+
+
+def rrule_scalar_read(prog, part, value):
+    """Outcomes of snarf_rrule() for a rule text whose every part is `<part>=<value>`: a list of (accepted, count, inter) over the
+    abstract paths — the keyword discriminant is fixed to the part's enumerator and the number parser's result to `value`
+    (value-fixed walk; nothing of echse runs)."""
+    f = prog.fn("snarf_rrule", "evical.c")
+    cfg = f.cfg
+    kval = prog.enumerator({"COUNT": "KEY_COUNT", "INTERVAL": "KEY_INTER"}[part])
+    if kval is None:
+        raise AnalysisBroken("enumerator for %s not found" % part)
+    rrv = None
+    for b, i, x, line in cfg.all_elems():
+        if isinstance(x, dict) and x.get("k") == "decl":
+            for d in x["ds"]:
+                if "rrulsp_s" in (d.get("t") or "") and d.get("init") is not None:
+                    rrv = d["n"]
+    if rrv is None:
+        raise AnalysisBroken("snarf_rrule: result variable not found")
+    keylv = set()
+    for b, i, x, line in cfg.all_elems():
+        for n in walk(cfg.resolve(x) if isinstance(x, dict) else {}):
+            if n.get("k") == "mem" and n.get("f") == "key":
+                keylv.add(lv(n))
+    if len(keylv) != 1:
+        raise AnalysisBroken("snarf_rrule: keyword discriminant not found (%s)" % sorted(keylv))
+    keylv = keylv.pop()
+
+    def effect(b, i, x, store):
+        upd = {keylv: kval}     # re-asserted at every element: the lookup result always names this part
+        if isinstance(x, dict) and any(c.get("fn") in NUMPARSERS for c in calls(x)):
+            upd["$num"] = 1
+        if isinstance(x, dict) and x.get("k") == "ret" and x.get("e") is not None:
+            e = strip_casts(cfg.resolve(x["e"]))
+            upd["$ret"] = 1 if (e.get("k") == "ref" and e.get("n") == rrv) else 0
+        return upd
+
+    def call_eval(c, store):
+        if c.get("fn") in NUMPARSERS:
+            return value
+        if c.get("fn") == "__builtin_expect":
+            return None
+        return None
+    ints = {l_["n"] for l_ in f.locals if (l_.get("t") or "") in ("long", "long int", "int", "unsigned int")}
+    w = AbsWalk(f, ints | {keylv, rrv, rrv + ".count", rrv + ".inter", rrv + ".freq"}, init={keylv: kval}, effect=effect, call_eval=call_eval, max_states=100000)
+    w.run()
+    out = set()
+    for st in w.exit_stores:
+        if st.get("$num"):      # paths on which the part was actually read
+            out.add((st.get("$ret"), st.get(rrv + ".count"), st.get(rrv + ".inter")))
+    if not out:
+        raise AnalysisBroken("snarf_rrule: no path reads the number of %s" % part)
+    return sorted(out, key=str), f
+
+
+def r05_4c(prog, rep, rid="R05.4"):
+    """Reader side of the scalar parts: the values the serialiser writes come back as written.  COUNT=0 (an exhausted rule — see the
+    writer clause) must come back as a rule without occurrences: rejected, or a stored count of 0 — never as the `unset` default,
+    which means unlimited."""
+    n = 0
+    for part, idx, probe in (("COUNT", 1, (0, 1, 2, 64, 1000)), ("INTERVAL", 2, (2, 3, 7, 60))):
+        for v in probe:
+            outs, f = rrule_scalar_read(prog, part, v)
+            n += 1
+            key = "snarf_rrule/%s=%d reads back" % (part, v)
+            acc = [o for o in outs if o[0] == 1]
+            if part == "COUNT" and v == 0:
+                bad = [o for o in acc if o[idx] != 0]
+                if bad:
+                    rep.fail(rid, key, f.loc(), "COUNT=0 — which the serialiser writes for a rule whose occurrences are used up — is accepted with count %s: "
+                             "the exhausted rule reads back as a live (unlimited) one" % sorted({o[idx] for o in bad}, key=str), {"outcomes": [list(o) for o in outs]})
+                else:
+                    rep.ok(rid, key, f.loc(), "COUNT=0 is rejected or kept as 0 (no occurrences)")
+                continue
+            if not acc:
+                rep.fail(rid, key, f.loc(), "%s=%d is rejected by the reader although the serialiser writes it" % (part, v))
+            elif any(o[idx] != v for o in acc):
+                rep.fail(rid, key, f.loc(), "%s=%d reads back as %s" % (part, v, sorted({o[idx] for o in acc}, key=str)), {"outcomes": [list(o) for o in outs]})
+            else:
+                rep.ok(rid, key, f.loc(), "%s=%d reads back as %d" % (part, v, v), nontrivial=(v == probe[-1]))
+    if n < 9:
+        rep.broken_("rule=%s expected 9 probes of the scalar parts, ran %d" % (rid, n))
+
+
+def r09_8(prog, rep, rid="R09.8"):
+    """INTERVAL is stored into an unsigned step that the fillers add to month/day/hour counters: only positive values may be admitted
+    (a negative number becomes 2^32-k, the counters walk backwards below 1 and index the month-length tables at -1)."""
+    for v in (-1, -7):
+        outs, f = rrule_scalar_read(prog, "INTERVAL", v)
+        acc = [o for o in outs if o[0] == 1]
+        key = "snarf_rrule/INTERVAL=%d" % v
+        bad = [o for o in acc if o[2] is None or o[2] > 0x7fffffff or o[2] <= 0]
+        if bad:
+            rep.fail(rid, key, f.loc(), "INTERVAL=%d is accepted and stored as %s: the fillers then step their month/day counters backwards "
+                     "(m += 4294967295 is m - 1) below 1 and read the month-length table out of bounds" % (v, sorted({o[2] for o in bad}, key=str)),
+                     {"outcomes": [list(o) for o in outs]})
+        else:
+            rep.ok(rid, key, f.loc(), "INTERVAL=%d is rejected (or leaves the default step)" % v)
